@@ -304,7 +304,7 @@ func TestCheck(t *testing.T) {
 	ev.Run(t, ev.Spec[Case]{
 		ID:    "C08",
 		Level: "exploration",
-		Rule: "a base set from the schema model (optionally with augments) plus 1-2 deviating modules with 1-5 deviations each: every deviate kind and every property the claim lists (config, default, mandatory, min/max-elements, units, type), 1-3 deviate statements per deviation drawn so that each is applicable to the node as the previous ones left it (add what is absent, replace/delete what is present and equal), targets that are leaves, leaf-lists, lists, containers, choices (in the data tree and below rpc/action input/output and notifications, there without config), and for not-supported also cases, anydata/anyxml, rpcs, actions, notifications and written input/output nodes; also copies made by uses and nodes grafted by augments; a second module may deviate other properties of the same node; both settings of the ignore-not-supported option; model or permuted load order; every case is run 6 times in fresh module sets (the runtime re-randomises the iteration order of the map of deviate kinds). One quarter of the cases plant exactly one inapplicable deviation of each class the property lists. " +
+		Rule: "a base set from the schema model (optionally with augments) plus 1-2 deviating modules with 1-5 deviations each: every deviate kind and every property the claim lists (config, default, mandatory, min/max-elements, units, type), 1-3 deviate statements per deviation drawn so that each is applicable to the node as the previous ones left it (add what is absent, replace/delete what is present and equal), targets that are leaves, leaf-lists, lists, containers, choices (in the data tree and below rpc/action input/output and notifications, there without config), and for not-supported also cases, anydata/anyxml, rpcs, actions, notifications and written input/output nodes; also copies made by uses and nodes grafted by augments; a second module may deviate other properties of the same node; both settings of the ignore-not-supported option; model or permuted load order; every case is run 6 times in fresh module sets (the runtime re-randomises the iteration order of the map of deviate kinds). One quarter of the cases plant exactly one inapplicable deviation of each class the property lists (missing target including a target that an earlier deviation of the module removed - the node itself or an ancestor of it, with or without an earlier deviation under the same path text -, default exists/absent/different, element bound different or on a non-list, unresolvable type, unknown deviate kind). " +
 			"Oracle: reference application of RFC 7950 7.20.3 in written order on the expanded model; every module tree must equal it completely (so every node no deviation targets equals what the modules yield without the deviating module), applicable deviations must not be rejected, planted inapplicable ones must produce an error. " +
 			"Non-trivial = at least one deviation; distinct by (set, order, option)",
 		Assumptions: []string{
